@@ -263,3 +263,6 @@ pub mod parsum {
         }
     }
 }
+
+/// Hook H6: private DP sampler layers and noise addition with an arbitrary random source.
+pub use crate::dp::distributions::verif as dp_samplers;
